@@ -55,6 +55,18 @@ def search(S):
         X0 = alg.elem(ca.DM(z)).exp(grp)
         M0 = E.D(X0.to_Matrix())
         S.check(label + ".exp", "exp_zero", {"algebra": z.tolist()}, bool(np.array_equal(M0, np.eye(M0.shape[0])) and np.allclose(E.D(X0.param), E.D(grp.identity().param), atol=0)), None, M0.tolist(), "exp(0) is not exactly the identity")
+    # Euler just outside its gimbal band (the property applies from 1e-3 rad on)
+    from cyecca.lie import so3, SO3EulerB321
+    for sign in (1, -1):
+        for dth in (1.2e-3, 2e-3, 5e-3, 1e-2, 2e-2, 4e-2, 8e-2):
+            e = np.array([rng.uniform(-3, 3), sign * (np.pi / 2 - dth), rng.uniform(0.3, 3) * rng.choice([-1, 1])])
+            Rt = E.D(SO3EulerB321.elem(ca.DM(e)).to_Matrix())
+            ang = np.arccos(np.clip((np.trace(Rt) - 1) / 2, -1, 1))
+            if ang < 1e-6 or abs(ang - np.pi) < 1e-3:
+                continue
+            v = ang / (2 * np.sin(ang)) * np.array([Rt[2, 1] - Rt[1, 2], Rt[0, 2] - Rt[2, 0], Rt[1, 0] - Rt[0, 1]])
+            M = E.D(so3.elem(ca.DM(v)).exp(SO3EulerB321).to_Matrix()); ref = E.expm_ref(so3, v)
+            S.check("SO3Euler.exp", "is_expm_near_band", {"algebra": v.tolist(), "pitch_offset": dth}, bool(E.fin(M) and np.max(np.abs(M - ref)) <= 1e-9 / dth), ref.tolist(), M.tolist(), "exp into Euler angles just outside the gimbal band differs from the matrix exponential")
     # direct sums
     G = L.groups()
     for name in ("DPa", "DPb", "DPc", "DPd", "DPe", "DPf"):
